@@ -14,11 +14,13 @@ PROP = 'C19'
 LEVEL = 'exploration'
 RULE = ('1-D time-series files built through the public API: 1-200 records, '
         '1-8 dependent variables, values over 1e-30..1e30 incl. negative, '
-        'zero and values at the 7th-significant-digit rounding boundary, '
+        'zero, values at the 7th-significant-digit rounding boundary and '
+        'values that differ from the missing code in the 6th/7th digit, '
         'missing codes {-9, -999, -9999, -99999, -9999999, -99999999}, '
         '0-8 header comment attributes, masked cells (none/some/all). Each '
         'file is written, parsed independently, re-opened explicitly and by '
-        'auto-detection, and cycled a second time. non-trivial = >= 2 '
+        'auto-detection, cycled a second time, and a third time after '
+        'editing units on the file read back. non-trivial = >= 2 '
         'records or a masked cell; distinct = digest of the spec.')
 ASSUMPTIONS = [
     'files carry one missing code per variable (fill_value == missing_value)',
